@@ -308,6 +308,38 @@ class Life:
 
         structlog.configure(wrapper_class=structlog.make_filtering_bound_logger(logging.ERROR))
 
+    def op_CLI_GEN(self, op, ev):
+        """Observation through the command line (in-process): the bytes `ode2py` /
+        `ode2c` write for this model text and these arguments."""
+        import typer.main
+        from gotranx.cli import app
+
+        text = self.texts[op["m"]]
+        args = list(op["args"])
+        ev["key"] = "CLI|%s|%s" % (obs.sha(text)[:16], obs.canon(args))
+        ev["judged"] = True
+        self.nfile += 1
+        d = self.scratch / ("cli%d" % self.nfile)
+        d.mkdir(exist_ok=True)
+        (d / "model.ode").write_text(text)
+        argv = [args[0], str(d / "model.ode"), "-o", str(d / "out")] + args[1:]
+        code = 0
+        try:
+            typer.main.get_command(app).main(args=argv, standalone_mode=False)
+        except SystemExit as e:
+            code = e.code if isinstance(e.code, int) else 1
+        finally:
+            import structlog
+            import logging
+
+            structlog.configure(wrapper_class=structlog.make_filtering_bound_logger(logging.ERROR))
+        outs = sorted(p for p in d.iterdir() if p.name.startswith("out"))
+        if outs:
+            ev["digest"] = obs.sha(outs[0].read_bytes())
+            ev["nbytes"] = outs[0].stat().st_size
+        else:
+            ev["digest"] = "exit:%s" % code
+
     def op_MYOKIT(self, op, ev):
         import gotranx.myokit as M
 
@@ -372,7 +404,7 @@ class Life:
         ev["crossed_restart"] = True
 
     # --------------------------------------------------------------------- loop
-    OBSERVING = {"GEN", "PIECE", "LAYOUT", "USE_HELD", "USE_PUBLIC", "SAVE_ARRAY", "NAME_ARRAY"}
+    OBSERVING = {"GEN", "PIECE", "LAYOUT", "USE_HELD", "USE_PUBLIC", "SAVE_ARRAY", "NAME_ARRAY", "CLI_GEN"}
 
     def run(self) -> dict:
         events = []
